@@ -284,6 +284,24 @@ def generate(rng, tier):
         pc = pair_case(base, parts, cp, ce, exotic=True)
         pc["meta"]["kind"] = kind
         cases.append(pc)
+    # user-defined unit families whose conversion code holds fractional number, percent and money-free literals: the
+    # code is written with '.' and no grouping and must be read so under EVERY configuration
+    fam = [{"op": "add_type", "name": "tax"},
+           {"op": "add_type_item", "name": "tax", "index": 1, "format": "{value} net", "parse": ["{NUMBER:value} {TEXT:type:net}"],
+            "up": "{value} + 7.5%", "down": "{value}", "names": ["net"]},
+           {"op": "add_type_item", "name": "tax", "index": 2, "format": "{value} gross", "parse": ["{NUMBER:value} {TEXT:type:gross}"],
+            "up": "{value} * 1.25", "down": "{value} / 1.075", "names": ["gross"]},
+           {"op": "add_type_item", "name": "tax", "index": 3, "format": "{value} final", "parse": ["{NUMBER:value} {TEXT:type:final}"],
+            "up": "{value}", "down": "{value} / 1.25", "names": ["final"]}]
+    probes = [("200 net to gross", 215.0), ("215 gross to net", 200.0), ("100 gross to final", 125.0), ("100 final to gross", 80.0),
+              ("200 net to final", 268.75)]
+    for i, (c1, c2) in enumerate(pairs if tier != "quick" else pairs[::3]):
+        text, val = probes[i % len(probes)]
+        ops = list(fam)
+        for (d, t) in (c1, c2):
+            ops += [{"op": "set_dec", "v": d}, {"op": "set_thou", "v": t}, {"op": "exec", "lang": "en", "text": text}]
+        cases.append({"ops": ops, "meta": {"kind": "user-unit-code", "sensitive": True, "cfg": [list(c1), list(c2)],
+                                           "grouped_by": [[], []], "expect": [bits(val)]}})
     while len(cases) < n:
         kind, parts = shape(rng)
         c1, c2 = rng.choice(pairs)
@@ -292,15 +310,20 @@ def generate(rng, tier):
 
 
 # ---------------------------------------------------------------- oracle
-def exec_obs(rec):
+def exec_idx(c):
+    return [i for i, o in enumerate(c["ops"]) if o["op"] == "exec"]
+
+
+def exec_obs(rec, c=None):
     """the observations of the two exec ops, or None (panic / hang)"""
     if rec is None or rec.get("hang") or rec.get("crash"):
         return None
     obs = rec["obs"]
-    if len(obs) < 6:
+    i1, i2 = exec_idx(c) if c is not None else (2, 5)
+    if len(obs) <= i2:
         return None
     out = []
-    for o in (obs[2], obs[5]):
+    for o in (obs[i1], obs[i2]):
         if "panic" in o or o.get("lines") is None:
             return None
         out.append(o["lines"])
@@ -319,18 +342,19 @@ def json_key(v):
 
 
 def nontrivial(c, rec):
-    ob = exec_obs(rec)
+    ob = exec_obs(rec, c)
     if ob is None or not c["meta"]["sensitive"]:
         return False
     return all(ls and all(l is not None and line_value(l)[0] == "item" for l in ls) for ls in ob)
 
 
 def spec_check(c, rec, header):
-    ob = exec_obs(rec)
+    ob = exec_obs(rec, c)
     if ob is None:
         return "an evaluation panicked or hung"
     a, b = ob
-    t1, t2 = c["ops"][2]["text"], c["ops"][5]["text"]
+    i1, i2 = exec_idx(c)
+    t1, t2 = c["ops"][i1]["text"], c["ops"][i2]["text"]
     if len(a) != len(b):
         return "%r gives %d lines, %r gives %d" % (t1, len(a), t2, len(b))
     for i, (la, lb) in enumerate(zip(a, b)):
